@@ -133,6 +133,10 @@ def adoptTerm (ns : NodeSt) (t : Nat) : NodeSt :=
   if ns.term < t then { ns with term := t, votedFor := none, role := .follower }
   else { ns with role := .follower }
 
+/-- Head of the `request_vote` handler: a higher term makes the node a follower of that term. -/
+def bumpTerm (ns : NodeSt) (t : Nat) : NodeSt :=
+  if ns.term < t then { ns with term := t, votedFor := none, role := .follower } else ns
+
 /-! ## the transition function -/
 
 def step (N : Nat) (s : State) : Action → Option State
@@ -152,7 +156,7 @@ def step (N : Nat) (s : State) : Action → Option State
     | .reqVote t cand dst li lt =>
       if n < N ∧ dst = n ∧ cand < N ∧ cand ≠ n ∧ m ∈ s.msgs then
         let ns := s.nodes n
-        let ns1 := if ns.term < t then { ns with term := t, votedFor := none, role := .follower } else ns
+        let ns1 := bumpTerm ns t
         let msgs' := s.msgs.erase m
         if ns1.role ≠ .leader ∧ ns1.term ≤ t ∧ upToDate lt li ns1.log ∧ ns1.votedFor = none then
           let ns2 := { ns1 with votedFor := some cand }
